@@ -17,7 +17,7 @@ struct Lit {
     int unitIdx = -1;        // index into kGoldenUnits, -1 none
     int specialTag = -1;     // >= 0: special mnemonic
     bool nearMissSpecial = false;
-    bool innerWs = false, hasExp = false, hasFrac = false, hasSign = false;
+    bool innerWs = false, hasExp = false, hasFrac = false, hasSign = false, boundary = false;
     int digits = 0;
 };
 
@@ -46,6 +46,28 @@ static void genDecimal(Src &s, Lit &l, bool integerOnly, __int128 lo, __int128 h
         return;
     }
     switch (s.weighted({4, 2, 2})) { case 1: t += '+'; l.hasSign = true; break; case 2: t += '-'; l.hasSign = true; break; default: break; }
+    if (s.prob(1, 6)) {
+        // rounding boundary of the target type: the exact decimal expansion of the midpoint between two adjacent floats
+        // (float reader) or doubles (other readers), as written, or moved off the tie by a 1 / by 9s appended many digits
+        // further on - closer to the tie than a double can tell for the float case, so a conversion that rounds twice
+        // (text -> double -> float) lands on the wrong neighbour
+        int mant = l.reader == R_F32 ? 24 : 53;
+        uint64_t m = (1ULL << (mant - 1)) | (s.u64() & ((1ULL << (mant - 1)) - 1));
+        unsigned __int128 N = (unsigned __int128) (2 * (unsigned __int128) m + 1);        // midpoint = N * 2^(e-1)
+        int e = s.irange(-28, mant == 24 ? 30 : 8);
+        int k = 0;                                                                           // decimal places of the exact expansion
+        if (e - 1 >= 0) N <<= (e - 1); else { k = 1 - e; for (int i = 0; i < k; i++) N *= 5; }
+        int how = (int) s.range(0, 2);                                                       // 0 exact tie, 1 just above, 2 just below
+        if (how == 2) N -= 1;
+        std::string d; { unsigned __int128 x = N; do { d.insert(d.begin(), (char) ('0' + (int) (x % 10))); x /= 10; } while (x); }
+        if (how) { int j = (int) s.range(1, 14); while ((int) d.size() + j > 50 && j > 1) j--; d += how == 1 ? std::string((size_t) j - 1, '0') + "1" : std::string((size_t) j, '9'); k += j; }
+        l.digits = (int) d.size();
+        if (k == 0) t += d;
+        else if (s.coin()) { t += d + (s.coin() ? "E-" : "e-") + std::to_string(k); l.hasExp = true; }
+        else { if ((int) d.size() <= k) d = std::string((size_t) k - d.size() + 1, '0') + d; t += d.substr(0, d.size() - (size_t) k) + "." + d.substr(d.size() - (size_t) k); l.hasFrac = true; }
+        l.text = t; l.canon = t; l.boundary = true;
+        return;
+    }
     // 1..25 digits as the property quantifies, and occasionally up to 52 so that the whole token approaches (but stays
     // below) the 63 significant characters the white-space-squeezing conversion buffer of the library holds
     int nd = s.prob(1, 12) ? (int) s.range(26, 52) : s.prob(1, 4) ? (int) s.range(16, 25) : (int) s.range(1, 15);
@@ -174,6 +196,7 @@ static std::string body(Src &s, Ev &ev) {
     ev.eval();
     ev.label(std::string(kRName[l.reader]) + (l.specialTag >= 0 ? "-special" : l.unitIdx >= 0 ? "-suffix" : l.base != 10 ? "-nondecimal" : "-decimal"));
     if (l.innerWs) ev.label("white-space-inside-number");
+    if (l.boundary) ev.label(l.reader == R_F32 ? "float-rounding-boundary" : "double-rounding-boundary");
     if (nt) ev.nt(hashStr(std::to_string((int) l.reader) + l.text));
     if (nt && ev.wantSample()) ev.sample(describe(l));
     return m;
